@@ -69,7 +69,7 @@ theorem readonly_no_mutation (cfg : Cfg) (h : cfg.readonly = true) (s : State) (
 
 /-- the operations that only read -/
 def Op.isRead : Op → Bool
-  | .headBucket .. | .listBuckets | .getBucketPolicy .. | .getBucketAcl .. | .getBucketTagging .. | .getOwnership ..
+  | .headBucket .. | .listBuckets .. | .getBucketPolicy .. | .getBucketAcl .. | .getBucketTagging .. | .getOwnership ..
   | .getVersioning .. | .getObject .. | .headObject .. | .getObjectTagging .. | .listVersions .. | .getLockConfig ..
   | .getRetention .. | .getLegalHold .. | .listParts .. | .listUploads .. => true
   | _ => false
